@@ -77,6 +77,33 @@ Theorem C05_label_head_refuted :
 Proof. exact label_head_refuted. Qed.
 Print Assumptions C05_label_head_refuted.
 
+(* several targets that EACH share lineage with rows: the first StampStep folds all filtered rows into its destination, a later
+   one finds its from_ rows gone and becomes an INSERT (should_create_branch) — right exactly when no such target is itself a
+   row and every such target except the first in destination order has no row above it (is_upgrade).  This covers e.g. rows
+   {c1,c2} stamped to (d1,d2) with d1 above c1, d2 above c2.  A later destination BELOW its rows raises KeyError
+   (C05_multi_down_refuted), a destination that is itself a row is deleted (C05_multi_refuted): the class is tight. *)
+Theorem C05_multi_partial_general : forall G (purge:bool) t (H:list N), ~ cyclic (all_down G) -> ndeps_okb G = true ->
+  amo_class G (if purge then [] else H) (targets_of t) \/ up_class G (if purge then [] else H) (targets_of t) ->
+  C05_holds (G, purge, t, H) (model_C05 (G, purge, t, H)).
+Proof. exact multi_target_holds. Qed.
+Print Assumptions C05_multi_partial_general.
+
+(* both targets below their rows (rows {d1,d2} stamped to (c1,c2)): the second step raises KeyError; first above then below: same *)
+Theorem C05_multi_down_refuted :
+  pre_C05 (Ge, false, TIds [0;1]%N, [2;3]%N) = true /\
+  model_C05 (Ge, false, TIds [0;1]%N, [2;3]%N) =
+    Ok ([StampStep [2;3]%N [0]%N false false; StampStep [2;3]%N [1]%N false false], [ObsOk [0]%N [Del 2%N 1; Upd 3%N 0%N 1]; ObsErr EKey]) /\
+  ~ C05_holds (Ge, false, TIds [0;1]%N, [2;3]%N) (model_C05 (Ge, false, TIds [0;1]%N, [2;3]%N)) /\
+  model_C05 (Ge, false, TIds [3;0]%N, [2;1]%N) =
+    Ok ([StampStep [1;2]%N [3]%N true false; StampStep [1;2]%N [0]%N false false], [ObsOk [3]%N [Del 1%N 1; Upd 2%N 3%N 1]; ObsErr EKey]).
+Proof. split; [vm_compute; reflexivity|]. split; [vm_compute; reflexivity|]. split; [|vm_compute; reflexivity].
+  intros Hh. destruct Hh as [steps [os [E [_ [F _]]]]]; [vm_compute; reflexivity|].
+  assert (EM : model_C05 (Ge, false, TIds [0;1]%N, [2;3]%N) =
+    Ok ([StampStep [2;3]%N [0]%N false false; StampStep [2;3]%N [1]%N false false], [ObsOk [0]%N [Del 2%N 1; Upd 3%N 0%N 1]; ObsErr EKey]))
+    by (vm_compute; reflexivity).
+  rewrite EM in E. inversion E; subst. inversion F as [|? ? _ F']; subst. inversion F' as [|? ? K _]; subst. exact K. Qed.
+Print Assumptions C05_multi_down_refuted.
+
 (* ---------- label targets (resolution inside the model: resolve_label) ---------- *)
 (* <label>@base: exactly the rows sharing lineage with the revision that declares the label are deleted *)
 Theorem C05_label_base : forall G purge lab H, ~ cyclic (all_down G) -> ndeps_okb G = true ->
@@ -132,3 +159,29 @@ Example C05_label_nonvacuous :
   model_label (Gll, false, LBase 7%N, [1;3]%N) = Ok [] /\ pre_C05 (Gll, false, TBase, [1;3]%N) = true /\
   inclass_C05 (Gw, false, TIds [2;4]%N, [2;4]%N) = true.
 Proof. repeat split; vm_compute; reflexivity. Qed.
+(* C05-e's shape: both targets above their own row: inside up_class, outside the old class, exact result {d1,d2};
+   first below then above is inside as well *)
+Example C05_multi_general_nonvacuous :
+  inclass_C05 (Ge, false, TIds [2;3]%N, [0;1]%N) = false /\
+  model_C05 (Ge, false, TIds [2;3]%N, [0;1]%N) =
+    Ok ([StampStep [0;1]%N [2]%N true false; StampStep [0;1]%N [3]%N true false], [ObsOk [2]%N [Del 0%N 1; Upd 1%N 2%N 1]; ObsOk [2;3]%N [Ins 3%N]]) /\
+  check_C05 (Ge, false, TIds [2;3]%N, [0;1]%N) (model_C05 (Ge, false, TIds [2;3]%N, [0;1]%N)) = true /\
+  check_C05 (Ge, false, TIds [0;3]%N, [2;1]%N) (model_C05 (Ge, false, TIds [0;3]%N, [2;1]%N)) = true.
+Proof. repeat split; vm_compute; reflexivity. Qed.
+Example C05_up_class_nonvacuous :
+  up_class Ge [0;1]%N [2;3]%N /\ ~ amo_class Ge [0;1]%N [2;3]%N /\ pre_C05 (Ge, false, TIds [2;3]%N, [0;1]%N) = true.
+Proof.
+  assert (BASE : forall h z, In h [0;1]%N -> path (all_down Ge) h z -> h = z).
+  { intros h z Hh P. destruct P as [|x y z Hy _]; auto. exfalso. destruct Hh as [<-|[<-|[]]]; vm_compute in Hy; exact Hy. }
+  split; [|split; [|vm_compute; reflexivity]].
+  - split.
+    + intros t Ht _ [E|[E|[]]]; subst t; destruct Ht as [E|[E|[]]]; discriminate.
+    + intros pre t post E _ t' Ht' _ h Hh P. apply (BASE h t' Hh) in P. subst t'.
+      assert (Hin : In h [2;3]%N) by (rewrite E; apply in_or_app; right; right; auto).
+      destruct Hh as [<-|[<-|[]]]; destruct Hin as [E'|[E'|[]]]; discriminate.
+  - intros A.
+    assert (R2 : rel Ge [0;1]%N 2%N).
+    { exists 0%N. split; [left; auto|]. left. apply (path_step _ 2%N 0%N 0%N); [vm_compute; auto|constructor]. }
+    assert (R3 : rel Ge [0;1]%N 3%N).
+    { exists 1%N. split; [right; left; auto|]. left. apply (path_step _ 3%N 1%N 1%N); [vm_compute; auto|constructor]. }
+    destruct (A 2%N 3%N) as [E|[[E|[E|[]]] _]]; try discriminate; cbn; auto. Qed.
